@@ -69,6 +69,15 @@ def extraction(prog, run, first_order=True, with_handover=True, only_methods=Non
 def check(prog, run):
     declare_extraction_rules(run)
     extraction(prog, run)
+    run.rule("R-own-option", "an extraction routine hands its options (rtol, ..) to every helper that repeats them with the same default, wherever what the helper "
+             "computes from them is used", 0)
+    raw = prog.raw              # (the calls as written: the normaliser writes small helpers out at their calls, default values and all)
+    roots = [raw.func(q_).qual for q_ in ("functions.ssi.SSI_mpe", "functions.plscf.pLSCF_mpe") if q_.split(".")[-1] in {f_.node.name for f_ in raw.functions.values()}]
+    reach = sorted(q_ for q_ in raw.reachable(roots) if q_ in raw.functions and not q_.startswith("pyoma2.functions.plot"))
+    astq.repeated_option_rule(raw, run, "R-own-option", reach)
+    run.rule("R-dtype", "no returned table takes its dtype from the requested frequencies / orders as the caller typed them (integers truncate what is stored)", 0)
+    reach2 = sorted(q_ for q_ in prog.reachable([prog.func(q_).qual for q_ in ("functions.ssi.SSI_mpe", "functions.plscf.pLSCF_mpe")]) if q_ in prog.functions and not q_.startswith("pyoma2.functions.plot"))
+    astq.inherited_dtype_rule(prog, run, "R-dtype", reach2)
 
 
 def _row_is_nearest(prog, pf, row, tF, col, freqvar, tables):
@@ -671,7 +680,8 @@ def handover(prog, run, only_methods=None):
                     elif st_ == "after":
                         stale = f" is read BEFORE this call's `{want}` is stored into it: the extraction uses the value of the previous request"
             else:
-                s = astq.src(x, 80)
+                x = astq.uncoerce(x)
+                s = astq.src(x, 400)
                 if want == "rtol" and isinstance(x, ast.Attribute) and s.startswith("self.run_params."):
                     st_, v_ = astq.attr_store_status(holder if holder is not None else m, call, s)
                     if st_ == "before" and isinstance(v_, ast.Name) and v_.id == "rtol" and "rtol" in mpos:
@@ -682,10 +692,13 @@ def handover(prog, run, only_methods=None):
         m_outer, m, f = m, holder, fh
         # stores: self.result.X = <name unpacked at the position where the callee returns X>
         ret_names = None
-        for r in ast.walk(callee.node):
-            if isinstance(r, ast.Return) and isinstance(r.value, ast.Tuple):
-                ret_names = [e.id if isinstance(e, ast.Name) else None for e in r.value.elts]
-                break
+        # the return that names what it returns (an early `return (*empty, ..)` / a tuple of expressions tells nothing about positions)
+        cands = [[e.id if isinstance(e, ast.Name) else None for e in r.value.elts] for r in ast.walk(callee.node)
+                 if isinstance(r, ast.Return) and isinstance(r.value, ast.Tuple) and not any(isinstance(e, ast.Starred) for e in r.value.elts)]
+        if cands:
+            ret_names = max(cands, key=lambda ns: sum(1 for n_ in ns if n_))
+            if any(len(ns) != len(ret_names) for ns in cands):
+                ret_names = None
         unpack = None
         for s in ast.walk(m.node):
             if isinstance(s, ast.Assign) and s.value is call and isinstance(s.targets[0], ast.Tuple):
